@@ -18,7 +18,7 @@ type Pool struct {
 }
 
 func NewPool() *Pool {
-	p := &Pool{Strings: []string{"alpha", "beta", "gamma", ""}}
+	p := &Pool{Strings: []string{"alpha", "0xAbC", "gamma", "", "beta"}} // "0xAbC": text that looks like hex (a checksummed address carried as a string)
 	for i := 1; i <= 4; i++ {
 		a := make([]byte, 20)
 		for j := range a {
